@@ -608,6 +608,7 @@ func (n *NSQD) Notify(v interface{}, persist bool) {
 		defer verifPoint("notify:done")
 		// by selecting on exitChan we guarantee that
 		// we do not block exit, see issue #123
+		verifPoint("notify:before-send")
 		select {
 		case <-n.exitChan:
 		case n.notifyChan <- v:
